@@ -29,6 +29,21 @@ EXTRA = ("Prefer mechanisms that differ in KIND from everything listed below. Go
          "interplay with features added recently (run `git -C <your worktree> log --oneline | head -40` to see what was fixed lately: a "
          "plausible bug is a partial revert or a new special case that forgets one of those fixes' conditions). If the property allows, "
          "put at least one of your two variants in a file other than expr_parser.py and merchant_engine.py.")
+EXTRA_R7 = EXTRA
+EXTRA = ("Prefer mechanisms that differ in KIND from everything listed below. Read the 'Holds for' clause literally and aim at the corner of that "
+         "domain that is least likely to have been exercised by anyone: a combination of three conditions rather than two, the second or later "
+         "occurrence of something (second file, second run, second match, second view), an input that is legal but that nobody would write by "
+         "hand, or a code path that only one command or one output format reaches (the deprecated `type: amex` / `type: boa` readers, "
+         "`--format markdown` and `summary`, `-v` / `-vv`, `tally diag`, `tally inspect`, `tally explain --view/--category/--tags`, "
+         "`tally update`, `--no-embedded-html`, `--group-by`, year/title/currency settings, supplemental sources, `columns.description` "
+         "templates, delimiter / has_header / negate_amount / skip settings).  Also good: a change that is correct for every input whose "
+         "size is below some threshold (a cache that fills, a list longer than N, a file larger than a read buffer, more than 9 / 99 / 999 "
+         "items so that text sorts differently from numbers), a change that only matters when two different entry points are used in the "
+         "same process, and a 'harmless' change to what a helper RETURNS for a rare argument (None vs '' vs [], a tuple that gains a field, a "
+         "generator instead of a list).  Run `git -C <your worktree> log --oneline | head -45` to see what was fixed lately and make sure "
+         "your change is not simply the reverse of one of those commits.  If the property allows, put your two variants in two different files.")
+if len(sys.argv) > 2 and sys.argv[2] == 'r7':
+    EXTRA = EXTRA_R7
 if len(sys.argv) > 2 and sys.argv[2] == 'r6':
     EXTRA = EXTRA_R6
 if len(sys.argv) > 2 and sys.argv[2] == 'r4':
